@@ -204,6 +204,29 @@ example : csvColumns sampleTree =
      some (11, .label), some (11, .name), some (11, .alias), some (11, .conf)] := by
   decide
 
+/-- the same under the invariant of `h5_roundtrip`: for every output
+satisfying `OutInv` the CSV is written and is, row by row and column by column,
+the specification -/
+theorem csv_rows_outInv (b : Blob) (hinv : outInv b = true) (taint : List Lvl) (ck : ConfKey) :
+    csvRows b.tree taint ck b.results =
+      .ok (b.results.map (fun r => (csvKeys b.tree).map (cellSpec b.tree taint ck r))) := by
+  apply csvRows_eq
+  obtain ⟨t, nR, results⟩ := b
+  cases results with
+  | nil => simp [outInv] at hinv
+  | cons first rest =>
+    simp only [outInv, Bool.and_eq_true, List.all_eq_true, beq_iff_eq] at hinv
+    obtain ⟨hnd, hall⟩ := hinv
+    intro r hr l hl
+    obtain ⟨hkeys, _⟩ := hall r hr
+    rw [← hkeys] at hl hnd
+    obtain ⟨e, he, rfl⟩ := List.mem_map.mp hl
+    rw [lookup_of_nodupB hnd e he]
+    rfl
+
+example : (csvRows sampleBlob.tree [] (confidenceKey 10) sampleBlob.results).toOption.map
+    (·.map (·.length)) = some [8, 8] := by decide +kernel
+
 /-- one row per record, in the order of the records, each starting with the
 record's cell id -/
 theorem csv_one_row_per_record (t : Tree) (taint : List Lvl) (ck : ConfKey) (rs : List Record)
@@ -417,7 +440,7 @@ theorem reorder_permutation (rs : List Record) (order : List StrId)
     (h1 : ∀ c ∈ order, c ∈ rs.map (·.cellId)) (h2 : ∀ r ∈ rs, r.cellId ∈ order) :
     ∃ rs', reorder rs order = .ok rs' ∧ rs'.map (·.cellId) = order ∧ rs'.Perm rs := by
   obtain ⟨rs', e1, e2, e3⟩ := reorder_ok rs order h1
-  exact ⟨rs', e1, e2, reorder_perm rs rs' order hids hord h2 e1 e2 e3⟩
+  exact ⟨rs', e1, e2, reorder_perm rs rs' order hids hord h2 e2 e3⟩
 
 example : (sampleBlob.results.map (·.cellId)).Nodup ∧ [51, 50].Nodup := by decide
 
